@@ -240,6 +240,10 @@ fn plan_c07(o: &Opts) -> Vec<GroupSpec> {
    for i in 0..n as u64 {
       let mut r = rng_for("C07", o.seed, i);
       let prog = gen::gen_sugar(&mut r, &GenCfg::core());
+      if gen::kf2_shape(&prog) && GenCfg::core().excluded("KF-2") {
+         crate::count_excluded("KF-2");
+         continue;
+      }
       let base = format!("C07-s{}-{}", o.seed, i);
       let mut members =
          vec![MemberSpec { prog: prog.clone(), opts: PrintOpts::plain(Kind::Ascent), meta: meta(&base, "sugared", Kind::Ascent, true) }];
